@@ -119,6 +119,27 @@ func c12buildGrids(thorough bool) {
 			add(fmt.Sprintf("ZREVRANGEBYSCORE-grid-ws%v-tied%v", ws, tied), prog)
 		}
 	}
+	// ZREVRANGEBYSCORE ... LIMIT offset count: every offset in 0..6 and count in -1..11 over sets of 0..5 members,
+	// with and without WITHSCORES (a window computed in reply positions instead of members shows where
+	// members-left < count < 2 x members-left)
+	for _, ws := range []bool{false, true} {
+		prog := []resp.Value{}
+		for size := 0; size <= 5; size++ {
+			if size > 0 {
+				prog = append(prog, cmd("ZADD", "zl", fmt.Sprint(size), "m"+fmt.Sprint(size)))
+			}
+			for off := 0; off <= 6; off++ {
+				for cnt := -1; cnt <= 11; cnt++ {
+					args := []string{"ZREVRANGEBYSCORE", "zl", "+inf", "-inf"}
+					if ws {
+						args = append(args, "WITHSCORES")
+					}
+					prog = append(prog, cmd(append(args, "LIMIT", fmt.Sprint(off), fmt.Sprint(cnt))...))
+				}
+			}
+		}
+		add(fmt.Sprintf("ZREVRANGEBYSCORE-limit-grid-ws%v", ws), prog)
+	}
 	// counters at the 64-bit boundary
 	var prog []resp.Value
 	for _, v := range []string{"9223372036854775807", "9223372036854775806", "-9223372036854775808", "-9223372036854775807", "0", "abc", "1.5", "", " 1", "12x"} {
@@ -385,7 +406,7 @@ func init() {
 	run.Register(&run.Prop{
 		ID: "C12", Level: "exploration",
 		Rule: func(tier string) string {
-			return "case = one command program run through the real connection loop with a reference store (Redis-like primitives over an executable model state, one mutex) as handler, and through the executable Redis model directly; every reply compared as decoded values (status vs bulk, set/hash order, error text and float formatting insensitive) and the final store contents compared with the model state. Exhaustive grids: GETRANGE and SUBSTR on strings of length 0..6 x start,end in -9..9 (and a missing key), and on strings of length 0..3 x start,end over 11 values from -2^63 to 2^63-1; ZREVRANGE on sets of size 0..5 x start,stop in -7..7 x {plain, WITHSCORES} x {distinct, tied scores}; ZREVRANGEBYSCORE over 6x6 bounds x inclusive/exclusive x WITHSCORES x tied with LIMIT; counters at the 64-bit boundary and on non-integers, and on every stored string of length <= 3 over {-, +, 0, 1, 9, space, .}. Then seeded random programs (<=25 steps, 3 keys, value pool with integers near +-2^63, non-integers, empty, binary) over PING, ECHO, MSET, MSETNX, MGET, APPEND, INCR/DECR/INCRBY/DECRBY, STRLEN, GETRANGE, HMSET, HMGET, HEXISTS, HKEYS, HVALS, HLEN, HSTRLEN, SCARD, SISMEMBER, ZCARD, ZREVRANGE, ZREVRANGEBYSCORE, CONFIG SET/GET, and - as a logical flag without a clock - times to live (EXPIRE a day away, SET with KEEPTTL / EX / PX, TTL: counters and APPEND keep a key's time to live, SET/MSET/GETSET drop it). distinct_nontrivial = distinct (command argv, model-state tags) steps"
+			return "case = one command program run through the real connection loop with a reference store (Redis-like primitives over an executable model state, one mutex) as handler, and through the executable Redis model directly; every reply compared as decoded values (status vs bulk, set/hash order, error text and float formatting insensitive) and the final store contents compared with the model state. Exhaustive grids: GETRANGE and SUBSTR on strings of length 0..6 x start,end in -9..9 (and a missing key), and on strings of length 0..3 x start,end over 11 values from -2^63 to 2^63-1; ZREVRANGE on sets of size 0..5 x start,stop in -7..7 x {plain, WITHSCORES} x {distinct, tied scores}; ZREVRANGEBYSCORE over 6x6 bounds x inclusive/exclusive x WITHSCORES x tied with LIMIT, and LIMIT offset 0..6 x count -1..11 over sets of 0..5 members with and without WITHSCORES; counters at the 64-bit boundary and on non-integers, and on every stored string of length <= 3 over {-, +, 0, 1, 9, space, .}. Then seeded random programs (<=25 steps, 3 keys, value pool with integers near +-2^63, non-integers, empty, binary) over PING, ECHO, MSET, MSETNX, MGET, APPEND, INCR/DECR/INCRBY/DECRBY, STRLEN, GETRANGE, HMSET, HMGET, HEXISTS, HKEYS, HVALS, HLEN, HSTRLEN, SCARD, SISMEMBER, ZCARD, ZREVRANGE, ZREVRANGEBYSCORE, CONFIG SET/GET, and - as a logical flag without a clock - times to live (EXPIRE a day away, SET with KEEPTTL / EX / PX, TTL: counters and APPEND keep a key's time to live, SET/MSET/GETSET drop it). distinct_nontrivial = distinct (command argv, model-state tags) steps"
 		},
 		Exhaustive:  func(string) bool { return false },
 		Assumptions: []string{"the executable model in /verif/harness/model (written from the Redis command reference, own unit tests) is the reference", "integer syntax follows Redis string2ll (no '+', no leading zeros); such tokens are not generated", "each key is used with one data type (string commands on string keys, hash commands on hash keys, ...): what MGET/MSETNX answer for a key holding another type is not explored"},
